@@ -100,6 +100,20 @@ func FuncNoReturn(f *ssa.Function) bool {
 	return res
 }
 
+// ResetCaches drops the per-function memo tables (graphs, no-return inference, counted loops).  They are keyed by SSA
+// function and would otherwise keep every program analysed in this process alive (the thorough tier loads one program
+// per control variant).
+func ResetCaches() {
+	graphMu.Lock()
+	graphs = map[*ssa.Function]*Graph{}
+	noRetMemo = map[*ssa.Function]bool{}
+	noRetBusy = map[*ssa.Function]bool{}
+	graphMu.Unlock()
+	loopMu.Lock()
+	loopMemo = map[*ssa.Function][]*CountedLoop{}
+	loopMu.Unlock()
+}
+
 // G returns the pruned graph of fn.
 func G(fn *ssa.Function) *Graph {
 	graphMu.Lock()
